@@ -301,6 +301,17 @@ impl<'a> G<'a> {
                 } else if self.rng.chance(1, 500) {
                     self.plant("empty_key");
                     " ".to_string()
+                } else if self.rng.chance(1, 40) && !self.keys.is_empty() {
+                    // an existing key with a blank before or after it: a different key (keys are taken verbatim)
+                    let base = self.keys[self.rng.below(self.keys.len())].0.trim().to_string();
+                    let pad = *self.rng.pick(&[" ", "\u{a0}", "\u{3000}", "\t"]);
+                    let k = if self.rng.coin() { format!("{base}{pad}") } else { format!("{pad}{base}") };
+                    if base.is_empty() || self.keys.iter().any(|x| x.0 == k) {
+                        self.fresh()
+                    } else {
+                        self.plant("padded_key");
+                        k
+                    }
                 } else {
                     self.fresh()
                 };
